@@ -118,12 +118,22 @@ fn main() {
             }
             let before = e1::dir_state(&vd);
             w.garbage_collect_files().wait()?;
-            let after = e1::dir_state(&vd);
+            let mut after = e1::dir_state(&vd);
+            // A writer that was just dropped / consumed may still be tearing down its segment updater (queued tasks hold the
+            // SegmentMetas of merged-away segments alive for a moment): "merges have finished" includes that.  Collect again
+            // a few times before calling a file an orphan.
+            let mut retries = 0u64;
+            while retries < 8 && after.0.iter().any(|f| !after.2.contains(f)) {
+                std::thread::sleep(std::time::Duration::from_millis(150));
+                w.garbage_collect_files().wait()?;
+                after = e1::dir_state(&vd);
+                retries += 1;
+            }
             drop(w);
-            Ok((before, after))
+            Ok((before, after, retries))
         });
         let ((bf, bm, _bl), (af, am, al)) = match q {
-            Ok(Ok(x)) => x,
+            Ok(Ok((b, a, retries))) => { if retries > 0 { out.count("quiescence_collections_repeated", retries); } (b, a) }
             other => { out.spec_checked(false, json!({"what": "quiescence procedure failed", "result": format!("{:?}", other.map(|r| r.map(|_| ()))), "case": desc})); continue; }
         };
         let mut ids = PathIds::new();
